@@ -154,3 +154,134 @@ Example c01_groups_example :
   canon_groups [g2; g1; g3] = [g3; g1; g2] /\ canon_groups [g1; g3; g2] = [g3; g1; g2] /\
   tiebreaker_of ["baz"; "bay"] = "baz".
 Proof. vm_compute. repeat split; reflexivity. Qed.
+
+(* InitKeyring writes each key from its own goroutine. With distinct file
+   names the key directory is the same for EVERY order in which the writes
+   land, and holds exactly the configured content ... *)
+Theorem c01_keyring_schedule : forall s s',
+  NoDup (List.map fst s) -> Permutation s s' ->
+  keys_dir s = keys_dir s' /\
+  (forall k d, In (k, d) (keys_dir s) <-> exists v, d = Some v /\ In (k, v) s).
+Proof. intros s s' N P. split; [exact (keys_dir_schedule s s' N P) | exact (keys_dir_content s N)]. Qed.
+Print Assumptions c01_keyring_schedule.
+
+(* ... whereas two keyring entries with the same base name and different
+   content make the image depend on the schedule (candidate finding, see notes) *)
+Theorem c01_keyring_collision_refuted : exists s s', Permutation s s' /\ keys_dir s <> keys_dir s'.
+Proof. exact keys_dir_collision_refuted. Qed.
+Print Assumptions c01_keyring_collision_refuted.
+
+(* InstallPackages. For every package list, every expansion function, every
+   install function (including failing ones), every initial state and EVERY
+   schedule — the expansions finish in any order (any permutation of
+   0..N-1), interleaved with any number of turns of the installer goroutine —
+   the outcome after g.Wait() is the one of expanding and installing the
+   packages one after the other in index order: same final state, or an error
+   in both. In particular two schedules give the same outcome. *)
+Theorem c01_install_schedule :
+  forall (P E St : Type) (expand : P -> option E) (install : St -> nat -> P -> E -> option St)
+         (pkgs : list P) (fs0 : St) (sched sched' : list event),
+  Permutation (dones sched) (seq 0 (List.length pkgs)) ->
+  Permutation (dones sched') (seq 0 (List.length pkgs)) ->
+  outcome P E St expand install pkgs fs0 sched = seq_install P E St expand install 0 pkgs fs0 /\
+  outcome P E St expand install pkgs fs0 sched = outcome P E St expand install pkgs fs0 sched'.
+Proof.
+  intros P E St expand install pkgs fs0 sched sched' H H'.
+  split; [exact (install_schedule_perm P E St expand install pkgs fs0 sched H)
+         | exact (install_two_schedules P E St expand install pkgs fs0 sched sched' H H')].
+Qed.
+Print Assumptions c01_install_schedule.
+
+(* the build date: SOURCE_DATE_EPOCH when the variable is set (its parsed
+   value, or the --build-date flag when it is blank), otherwise the latest of
+   the flag and the installed packages' build times — whatever order
+   GetInstalled lists them in *)
+Theorem c01_bde : forall flag env times times',
+  Permutation times times' ->
+  build_date_epoch flag env times = build_date_epoch flag env times' /\
+  (forall v, env = Some v -> build_date_epoch flag env times = resolve_sde flag env) /\
+  (env = None -> IsLatest (build_date_epoch flag env times) (flag :: times)).
+Proof.
+  intros flag env times times' P. split; [exact (build_date_epoch_perm flag env times times' P) | exact (build_date_epoch_spec flag env times)].
+Qed.
+Print Assumptions c01_bde.
+
+(* the multi-architecture date: the latest over the architectures whatever
+   order their goroutines finish in; SOURCE_DATE_EPOCH itself when it is set *)
+Theorem c01_bde_multiarch : forall sde completed completed',
+  Permutation completed completed' ->
+  multi_arch_bde sde completed = multi_arch_bde sde completed' /\
+  IsLatest (multi_arch_bde sde completed) (sde :: completed) /\
+  (Forall (fun b => b = sde) completed -> multi_arch_bde sde completed = sde).
+Proof.
+  intros sde c c' P. split; [exact (multi_arch_bde_perm sde c c' P)|].
+  split; [exact (multi_arch_bde_latest sde c) | exact (multi_arch_bde_fixed sde c)].
+Qed.
+Print Assumptions c01_bde_multiarch.
+
+(* c01_resolve_order — REFUTED (finding C01-F1). Full statement: "for every
+   universe and every two iteration orders ord, ord' of the resolved
+   dependency map, install_if_pass m deps ord = install_if_pass m deps ord'".
+   False: with two install_if packages triggered in one resolution the
+   dependency list, hence the install order, hence lib/apk/db/installed,
+   hence the layer digest, follows Go's map iteration. *)
+Theorem c01_resolve_order_refuted :
+  exists m deps ord ord', NoDup ord /\ Permutation ord ord' /\ Permutation ord deps /\
+    install_if_pass m deps ord <> install_if_pass m deps ord'.
+Proof. exact install_if_order_refuted. Qed.
+Print Assumptions c01_resolve_order_refuted.
+
+(* the strongest form that holds: when at most one resolved dependency
+   triggers install_if packages the order is irrelevant. Missing for the full
+   statement: two or more triggering dependencies. *)
+Theorem c01_resolve_order_partial : forall m deps ord ord' k,
+  NoDup ord -> Permutation ord ord' -> In k ord ->
+  (forall d, In d ord -> d <> k -> ii_lookup m d = []) ->
+  install_if_pass m deps ord = install_if_pass m deps ord'.
+Proof. exact install_if_partial. Qed.
+Print Assumptions c01_resolve_order_partial.
+
+(* c01_tarball_order — REFUTED (finding C01-F2): the member order of the
+   output tarball follows the iteration order of go-containerregistry's image
+   map; with one image it is unique (partial). *)
+Theorem c01_tarball_order_refuted :
+  exists imgs imgs' manifests, Permutation imgs imgs' /\ tar_members imgs manifests <> tar_members imgs' manifests.
+Proof. exact tarball_order_refuted. Qed.
+Print Assumptions c01_tarball_order_refuted.
+
+Theorem c01_tarball_order_partial : forall img imgs' manifests,
+  Permutation [img] imgs' -> tar_members [img] manifests = tar_members imgs' manifests.
+Proof. exact tarball_order_single. Qed.
+Print Assumptions c01_tarball_order_partial.
+
+(* the validator run on the digests of real builds decides "same outputs" *)
+Theorem c01_validator_decides : forall a b, differing a b = [] <-> SameOutputs a b.
+Proof. exact differing_nil_iff. Qed.
+Print Assumptions c01_validator_decides.
+
+(* non-vacuity *)
+Example c01_install_schedule_example :
+  (* three packages; state = names installed so far; package "b" fails to install after "z" *)
+  let expand := fun p : string => Some p in
+  let install := fun (st : list string) (_ : nat) (p e : string) => Some (st ++ [e]) in
+  outcome string string (list string) expand install ["a"; "b"; "c"] []
+    [Step; Done 2; Step; Done 0; Step; Step; Done 1] = Some ["a"; "b"; "c"] /\
+  outcome string string (list string) expand install ["a"; "b"; "c"] []
+    [Done 1; Done 0; Step; Step; Step; Step; Done 2; Step] = Some ["a"; "b"; "c"] /\
+  Permutation (dones [Step; Done 2; Step; Done 0; Step; Step; Done 1]) (seq 0 3).
+Proof.
+  vm_compute. repeat split; try reflexivity.
+  apply Permutation_sym. eapply perm_trans; [|apply perm_swap]. apply perm_skip. apply perm_swap.
+Qed.
+
+Example c01_bde_example :
+  build_date_epoch 0 None [1700000000; 1700009999; 1700000500]%Z = 1700009999%Z /\
+  build_date_epoch 0 (Some (Some 1712345678%Z)) [1700000000; 1800000000]%Z = 1712345678%Z /\
+  build_date_epoch 5 (Some None) [1700000000]%Z = 5%Z /\
+  multi_arch_bde 0 [1700009999; 1700000001]%Z = multi_arch_bde 0 [1700000001; 1700009999]%Z.
+Proof. vm_compute. repeat split; reflexivity. Qed.
+
+Example c01_resolve_order_example :
+  install_if_pass ii_universe ["d1"; "d2"] ["d1"; "d2"] = ["d1"; "d2"; "x1"; "x2"] /\
+  install_if_pass ii_universe ["d1"; "d2"] ["d2"; "d1"] = ["d1"; "d2"; "x2"; "x1"].
+Proof. vm_compute. split; reflexivity. Qed.
